@@ -145,12 +145,73 @@ pairing = Contract(
     loops={"for c in self.currently_executing": LoopSpec(invariant=c10.LOOP_INV, assumed=True),
            "for c in self.currently_executing#1": LoopSpec(invariant=c10.LOOP_INV, assumed=True),
            "for overlap_list in self.uod.overlapping_command_names_lists": LoopSpec(invariant=c10.LOOP_INV, assumed=True)})
-CONTRACTS = [pairing]
+
+
+# ---- exclusivity scans (BOUNDED stand-in): both scans unrolled on the real code for at most XB executing requests and XB overlap lists ----
+XB = 2
+
+
+def cancel_logged(ctx, args, kwargs):
+    """self._cancel_command(c): recorded in the ghost list of cancelled requests; retires c (postcondition of _cancel_command, C10)"""
+    ctx.ghost.setdefault("xcancelled", []).append(args[0])
+    st = ctx.st
+    done = ctx.spec("self.cmd_executing_done")
+    from pyvc import heapops as H
+    H.dict_set(st, ctx.rid(done), args[0].term, args[0].term)
+    return ctx.none()
+
+
+cancel_logged.modifies = ["$dhas", "$dval", "$dcnt", "$dord", "$dpos"]
+
+
+class _ScansDone(Exception):
+    pass
+
+
+def after_scans(ctx, args, kwargs):
+    """first statement after the two scans (self.uod.has_command_instance): every request that was executing at entry and conflicts with
+    the requested command (same name, or named together with it in ANY declared overlap list) has been cancelled"""
+    log = ctx.ghost.get("xcancelled", [])
+    for j in range(XB):
+        r = ctx.spec(f"old(self.cmd_executing)[{j}]")
+        active = ctx.spec_bool(f"{j} < old(len(self.cmd_executing)) and old(self.cmd_executing)[{j}] not in old(self.cmd_executing_done)")
+        same = ctx.spec_bool(f"old(self.cmd_executing)[{j}].name == cmd_request.name")
+        overl = ctx.spec_bool(f"any(old(self.cmd_executing)[{j}].name in L and cmd_request.name in L for L in self.uod.overlapping_command_names_lists)")
+        other = r.term != ctx.local("cmd_request").term
+        was_cancelled = z3.Or([e.term == r.term for e in log]) if log else z3.BoolVal(False)
+        ctx.check(f"executing-request-{j}-with-the-same-name-is-cancelled-first", z3.Implies(z3.And(active, other, same), was_cancelled), "call-site")
+        ctx.check(f"executing-request-{j}-overlapping-in-any-declared-list-is-cancelled-first",
+                  z3.Implies(z3.And(active, other, overl), was_cancelled), "call-site")
+        ctx.check(f"executing-request-{j}-without-conflict-is-left-running",
+                  z3.Implies(z3.And(active, z3.Not(z3.And(other, z3.Or(same, overl)))), z3.Not(was_cancelled)), "call-site")
+    ctx.check("the-requested-command-itself-is-never-cancelled-by-the-scans",
+              z3.And([e.term != ctx.local("cmd_request").term for e in log]) if log else z3.BoolVal(True), "call-site")
+    from pyvc.state import PathEnd
+    raise PathEnd("exclusivity scans checked; the rest of the body belongs to the pairing contract")
+
+
+after_scans.modifies = []
+UX = LoopSpec(unroll=XB)
+
+
+def _exclusive(nreq, nlists):
+    return Contract(
+        target=c10.CM + "_execute_uod_command", variant=f"exclusivity-scans-bounded-{nreq}req-{nlists}lists", types=c10.TYPES,
+        calls=dict(c10.CALLS, **{"self._cancel_command": cancel_logged, "self.uod.has_command_instance": after_scans}),
+        options=dict(c10.OPTS, default_unroll=XB), raises=None,
+        requires=[f"len(self.cmd_executing) <= {nreq}", f"len(self.uod.overlapping_command_names_lists) <= {nlists}",
+                  "all(self.cmd_executing[a] is not self.cmd_executing[b] for a in range(len(self.cmd_executing)) for b in range(a))"],
+        loops={"for c in self.currently_executing": UX, "for c in self.currently_executing#1": UX,
+               "for overlap_list in self.uod.overlapping_command_names_lists": UX})
+
+
+EXCL = [_exclusive(2, 1), _exclusive(1, 2)]
+CONTRACTS = [pairing] + EXCL
 TARGETS = [c.key for c in CONTRACTS]
 TRUSTED = ["ASSUMED (not proved): the two scans that cancel identical / overlapping commands (the exclusivity clause itself) behave as stated in C10",
            "the command's flag methods are the plain getters/setters of EngineCommand (read); life cycle well-formed at entry (started => initialized, complete => started)",
            "a freshly created command has all flags False (EngineCommand.__init__) — the ghost flags are arbitrary but well-formed, which includes that case"]
-CLAUSES = {"no two instances of the same / overlapping UOD commands execute; requesting one cancels the older": "NOT proved (assumed loop contract, see C10)",
+CLAUSES = {"no two instances of the same / overlapping UOD commands execute; requesting one cancels the older": "BOUNDED: call-site obligations after the two scans, unrolled for (<= 2 executing requests, <= 1 overlap list) and (<= 1 executing request, <= 2 overlap lists); `execute at no tick` itself follows only together with C10 (a cancelled request is retired and its instance released)",
            "every instance is initialized once before its first execution and finalized exactly once, whether it completes, fails, is cancelled or the run stops": "call-site obligations on one tick of one request, all paths incl. raising callbacks; across ticks by the flags being the command's own state; `run stops` via C10"}
 EXPLANATION = "Partial claim: life-cycle call-site obligations on CommandManager._execute_uod_command with ghost flags."
 
@@ -171,4 +232,5 @@ def _nat():
 
 
 NATIVE = [("native:init-exec-finalize-pairing-on-the-real-engine", _nat)]
-BOUNDED = ["four native scenarios with counting callbacks on the real engine (completing, overlapping, re-requested, failing command; Stop): bounded, not counted"]
+BOUNDED = [f"exclusivity scans of _execute_uod_command: both loops unrolled on the real code in two configurations: at most 2 executing requests with at most 1 overlap list, and at most 1 executing request with at most 2 overlap lists (lists of any length)",
+           "four native scenarios with counting callbacks on the real engine (completing, overlapping, re-requested, failing command; Stop): bounded, not counted"]
